@@ -128,6 +128,17 @@ def replay(recs):
                         report(site + "/collection", alll[i], {**case0, "p": allq[i].tolist(), "polygon": st}, bool(alle[i]), bool(got[i]))
             except Exception as ex:  # noqa: BLE001
                 report(site + "/collection", st, case0, "booleans", f"raised {type(ex).__name__}: {ex}")
+            # the same batch in other orders (reversed; interleaved, so that points off the supporting plane come before and
+            # between coplanar ones): the answer at each position is that of the point at that position
+            for oname, perm in (("reversed", np.arange(len(allq))[::-1]), ("interleaved", np.argsort([(k * 7) % len(allq) + k / (len(allq) + 1.0) for k in range(len(allq))]))):
+                try:
+                    gotp = np.asarray(P.contains(g.PointCollection(allq[perm])))
+                    bad = np.flatnonzero(gotp != alle[perm]) if gotp.shape == alle.shape else [0]
+                    for i in list(bad)[:1]:
+                        report(site + f"/collection/{oname}-order", alll[perm[i]], {**case0, "p": allq[perm[i]].tolist(), "polygon": st, "position": int(i)},
+                               bool(alle[perm[i]]), bool(gotp[i]) if gotp.shape == alle.shape else {"shape": list(gotp.shape)})
+                except Exception as ex:  # noqa: BLE001
+                    report(site + f"/collection/{oname}-order", st, case0, "booleans", f"raised {type(ex).__name__}: {ex}")
             # the polygon has answered by now; moved by an exact isometry it must answer for its new position
             if cname in ("Polygon", "Rectangle"):
                 from ..moved import motions, warm
